@@ -46,6 +46,14 @@ def gen_scenario(rng, allow_zero_stop=True, small=False, delayed=False):
                 states.append({"k": k, "id": i, "state": rng.choice(STATES)})
             if rng.random() < 0.15:
                 props.append({"k": k, "id": i, "x": rng.choice([-2.5, -1.0, 0.0, 0.125, 3.75, 10.0]), "n": rng.choice([-4, -1, 0, 2, 7])})
+    # deletions from inside act: an agent removes itself or an agent created before it (both have
+    # already acted in this step, so the rest of the step is unambiguous: everybody else still acts once)
+    acts = []
+    if churn and next_id > 1 and rng.random() < 0.5:
+        for k in range(1, nsteps + 1):
+            if rng.random() < 0.12:
+                a = rng.randrange(0, next_id)
+                acts.append({"k": k, "by": a, "op": "delete", "id": rng.choice([a, a, rng.randrange(0, a + 1)])})
     sends = []
     if (delayed or rng.random() < 0.4) and next_id > 0:
         uid = 0
@@ -55,7 +63,7 @@ def gen_scenario(rng, allow_zero_stop=True, small=False, delayed=False):
                 sends.append({"k": k, "from": rng.randrange(0, next_id), "uid": uid, "to": rng.randrange(0, next_id + 1),
                               "delay": rng.choice([None, round(dt * 2, 6), round(dt * 3, 6)] if delayed else [None, None, round(dt * 2, 6)]),
                               "name": "ping"})
-    return {"start": start, "stop": stop, "dt": dt, "init": init, "pop": pop, "states": states, "props": props, "sends": sends}
+    return {"start": start, "stop": stop, "dt": dt, "init": init, "pop": pop, "states": states, "props": props, "sends": sends, "acts": acts}
 
 
 def load_script(world, sc, uid_offset=0):
@@ -66,24 +74,32 @@ def load_script(world, sc, uid_offset=0):
         world.state_script[(s["k"], s["id"])] = s["state"]
     for p in sc["props"]:
         world.prop_script[(p["k"], p["id"])] = {"x": p["x"], "n": p["n"]}
+    for a in sc.get("acts", ()):
+        world.act_ops.setdefault((a["k"], a["by"]), []).append({"op": a["op"], "id": a["id"]})
     for s in sc["sends"]:
         s = dict(s)
         s["uid"] = s["uid"] + uid_offset
         world.sends.setdefault((s["k"], s["from"]), []).append(s)
 
 
-def expected_calls(sc, collect=True, mode="run"):
-    """the call log the property prescribes, generated from the run spec and the population script"""
-    sh = shadow_new()
-    for t, c in sc["init"]:
-        for _ in range(c):
-            shadow_apply(sh, {"op": "create", "type": t})
+def expected_calls(sc, collect=True, mode="run", sh=None, k0=0, with_hooks=True):
+    """the call log the property prescribes, generated from the run spec and the population script.
+    sh / k0: continue from an earlier run of the same model (population and step counter persist)."""
+    if sh is None:
+        sh = shadow_new()
+        for t, c in sc["init"]:
+            for _ in range(c):
+                shadow_apply(sh, {"op": "create", "type": t})
     hooks = {}
-    for p in sc["pop"]:
-        hooks.setdefault((p["k"], p["where"]), []).append({x: y for x, y in p.items() if x not in ("k", "where")})
+    acts = {}
+    if with_hooks:
+        for p in sc["pop"]:
+            hooks.setdefault((p["k"], p["where"]), []).append({x: y for x, y in p.items() if x not in ("k", "where")})
+        for a in sc.get("acts", ()):
+            acts.setdefault((a["k"], a["by"]), []).append({"op": a["op"], "id": a["id"]})
     spr = round(1 / sc["dt"])
     out = []
-    k = 0
+    k = k0
     for r in range(sc["start"], sc["stop"] + 1):
         for s in range(spr):
             k += 1
@@ -92,14 +108,20 @@ def expected_calls(sc, collect=True, mode="run"):
             for op in hooks.get((k, "begin"), ()):
                 shadow_apply(sh, op)
             for i in list(sh["live"]):
+                if i not in sh["live"]:
+                    continue        # removed by an earlier agent's act in this very step: only ids <= the remover, so never reached
                 out.append(("handle", i, time))
                 out.append(("act", i, time))
+                for op in acts.get((k, i), ()):
+                    shadow_apply(sh, op)
             out.append(("end", time, r, s))
             for op in hooks.get((k, "end"), ()):
                 shadow_apply(sh, op)
             last = (r == sc["stop"] and s == spr - 1)
             if collect or last:
                 out.append(("collect", time))
+    expected_calls.last_shadow = sh
+    expected_calls.last_k = k
     return out
 
 
@@ -113,7 +135,7 @@ def build_direct(sc, collector=True):
     return m
 
 
-def build_bptk(scenarios):
+def build_bptk(scenarios, class_path=False):
     """register the scenarios with a real bptk through ScenarioManagerHybrid (one deep copy of the
     base model per scenario) and load each scenario's script into its own world"""
     import BPTK_Py
@@ -127,7 +149,12 @@ def build_bptk(scenarios):
         sdict["s%d" % n] = {"runspecs": {"starttime": sc["start"], "stoptime": sc["stop"], "dt": sc["dt"]},
                             "properties": {},
                             "agents": [{"name": t, "count": c} for t, c in sc["init"]]}
-    b.register_scenario_manager({"smAbm": {"type": "abm", "model": base, "scenarios": sdict}})
+    if class_path:
+        # the manager names its model class in dot notation (the scenario-file / dictionary notation):
+        # ScenarioManagerHybrid instantiates the class once per scenario instead of deep-copying a model object
+        b.register_scenario_manager({"smAbm": {"type": "abm", "model": "models.abm_agents.ScriptModel", "scenarios": sdict}})
+    else:
+        b.register_scenario_manager({"smAbm": {"type": "abm", "model": base, "scenarios": sdict}})
     models = []
     for n, sc in enumerate(scenarios):
         m = b.get_scenario("smAbm", "s%d" % n)
